@@ -16,6 +16,18 @@ CHECKS = {
         note="Trusted: the E1 semantics (validated every run against its concrete twin), z3/cvc5. Assumes memory offsets "
              "and lengths < 2^32, no gas exhaustion; /usr/bin/z3 stands in for the Max-SMT solver. Blocks outside the "
              "families are outside the claim."),
+    "C02": dict(
+        level="translation_validation", design="5/C02", engine="E2 Spec-SMT vs E1 EVM-SMT",
+        technique="SMT query over machine state and a symbolic schedule (integer position variables) comparing the real "
+                  "front-end's specification with the block",
+        text="For every block of the families and each split/rule/criterion setting the real front-end produces the "
+             "specification; one SMT query per sub-block asks for a machine state and an admissible linearisation of the "
+             "memory/storage operations under which the specification and the sub-block differ (stack, memory byte, storage "
+             "slot); a second query per unordered pair of accesses asks for a state in which they overlap. Counterexamples "
+             "are replayed on concrete twins of both semantics.",
+        note="Trusted: E1/E2 semantics (E1 validated against its twin every C01 run), z3/cvc5. Schedules are fully symbolic "
+             "for specifications with <= 6 (quick) / 8 (thorough) memory operations; larger ones are counted, not decided. "
+             "Offsets/lengths < 2^32."),
     "C18": dict(
         level="translation_validation", design="5/C18", engine="z3 over enumerated formula shapes",
         technique="SMT equivalence (z3) of constructed formula, parsed SMT-LIB text and raw tree, for all valuations",
